@@ -29,7 +29,7 @@ ENV = dict(os.environ)
 ENV.update({
     "GOFLAGS": "-mod=mod", "GOPROXY": "off", "GOSUMDB": "off", "GOTOOLCHAIN": "local",
     "GONOSUMDB": "*", "GONOSUMCHECK": "1", "GOFLAGS_EXTRA": "",
-    "VERIF_DIR": VERIF, "VERIF_REPO": REPO, "VERIF_HARNESS": HARNESS,
+    "VERIF_DIR": VERIF, "VERIF_REPO": REPO, "VERIF_HARNESS": HARNESS, "VERIF_BIN": BIN, "VERIF_OUTDIR": OUTDIR,
 })
 ENV.pop("GOFLAGS_EXTRA")
 
